@@ -565,7 +565,7 @@ def r04_11(prog: Program, rep: Report):
     lossy_first = []
     exact_seen = False
     tparam = ("param", f.params[1]) if len(f.params) > 1 else None
-    for p in P.paths_of(prog, f):
+    for p in P.splice_helpers(prog, P.paths_of(prog, f)):
         # targets other than time / datetime (dates, durations) are written without an offset: exempt
         other_target = any((not pol) and T.is_call_to(g, "builtins.issubclass") and g[2][:1] == (tparam,) and {"datetime.datetime", "datetime.time"} <= {T.refname(y) for y in (P.flatten_display(prog, g[2][1]) or [g[2][1]])} for g, pol in p.guards())
         if other_target:
